@@ -315,6 +315,40 @@ example : let m : Info := { cp := 0x301, mask := 0, cluster := 1, gidx := 0, pro
     simp only [List.mem_cons, List.not_mem_nil, or_false] at hx
     rcases hx with hx | hx <;> subst hx <;> decide +kernel
 
+/-! ## clusters are normalized independently of what follows them -/
+
+/-- **A cluster without a variation selector is decomposed regardless of what follows it in the buffer.**
+    From every state of the first round (`out` already output, any flags): if the input starts with a cluster
+    `s + marks` (at least one mark) that contains no variation selector, then — whatever `tl` holds after it
+    (`tl` is empty or starts with a non-mark; it may contain variation selectors anywhere) — every record of the
+    cluster goes through `decompose_current_character`, the results are appended to the out-buffer and the round
+    continues with `tl` untouched.  `decompose_multi_char_cluster` gives up on normalization
+    (`handle_variation_selector_cluster`) only for a selector inside the cluster itself. -/
+theorem C09_cluster_regardless_of_rest (U : UData) (F : Font) (K : Consts) (fuel : Nat) (might always : Bool)
+    (out : List Info) (s m : Info) (ms tl : List Info) (flags : Nat) (as : Bool)
+    (hm : ∀ x ∈ m :: ms, x.isMark = true) (htl : ∀ z ∈ tl.head?, z.isMark = false)
+    (hvs : ∀ x ∈ s :: m :: ms, U.isVS x.cp = false) :
+    round1 U F K fuel might always out (s :: m :: (ms ++ tl)) flags as =
+      match decomposeRun U F K fuel always (s :: m :: ms) flags with
+      | none => none
+      | some (o, f) => round1 U F K fuel might always (out ++ o) tl f false :=
+  round1_cluster_then U F K fuel might always out s m ms tl flags as hm htl hvs
+
+/-- non-vacuity: `a U+0308` followed by the unrelated cluster `x U+FE00` (a variation selector later in the buffer) -/
+example : let m : Info := { cp := 0x308, mask := 0, cluster := 1, gidx := 0, props := { cls := 1, hi := 230 } }
+    let s : Info := { cp := 0x61, mask := 0, cluster := 0, gidx := 0, props := {} }
+    let x : Info := { cp := 0x78, mask := 0, cluster := 2, gidx := 0, props := {} }
+    let v : Info := { cp := 0xFE00, mask := 0, cluster := 3, gidx := 0, props := { cls := 1, ign := true, cont := true } }
+    (∀ y ∈ [m], y.isMark = true) ∧ (∀ z ∈ [x, v].head?, z.isMark = false) ∧
+      (∀ y ∈ [s, m], genU.isVS y.cp = false) ∧ genU.isVS v.cp = true := by
+  intro m s x v
+  refine ⟨?_, ?_, ?_, by decide +kernel⟩
+  · intro y hy; simp only [List.mem_singleton] at hy; subst hy; decide
+  · intro z hz; simp only [List.head?_cons, Option.mem_def, Option.some.injEq] at hz; subst hz; decide
+  · intro y hy
+    simp only [List.mem_cons, List.not_mem_nil, or_false] at hy
+    rcases hy with hy | hy <;> subst hy <;> decide +kernel
+
 /-! ## C08, normalizer part: the first two rounds keep canonical equivalence -/
 
 /-- Whatever `decompose` outputs for `c` (either mode), decomposed to the end, is the full canonical
